@@ -135,6 +135,21 @@ fn apply<T: Sc>(m: &mut Matrix<T>, op: &str, t: &mut Toks, cx: &mut Ctx) -> Stri
             exp = Some(if i >= rf.r || j >= rf.r { Exp::Reject } else { out.a.swap(i, j); Exp::State(out) });
             res = r1.map(|_| String::new());
         }
+        "swapelem" => {
+            // raw (row, col) addressing: the index operator checks the flat offset only
+            let (i1, j1, i2, j2) = (t.usize(), t.usize(), t.usize(), t.usize());
+            let r1 = guarded(|| m.swap_elem(i1, j1, i2, j2));
+            let (f1, f2) = (i1 * rf.c + j1, i2 * rf.c + j2);
+            let mut out = rf.clone();
+            exp = Some(if f1 >= rf.r * rf.c || f2 >= rf.r * rf.c { Exp::Reject } else {
+                let (a, b) = (out.a[f1 / rf.c][f1 % rf.c], out.a[f2 / rf.c][f2 % rf.c]); out.a[f1 / rf.c][f1 % rf.c] = b; out.a[f2 / rf.c][f2 % rf.c] = a; Exp::State(out) });
+            res = r1.map(|_| String::new());
+        }
+        "empty" => {
+            let r1 = guarded(|| Matrix::<T>::empty());
+            exp = Some(Exp::State(RefM::zeros(0, 0)));
+            res = r1.map(|y| { *m = y; String::new() });
+        }
         "delrow" => {
             let i = t.usize();
             let r1 = guarded(|| m.delete_row(i));
@@ -326,7 +341,8 @@ pub fn gen_op<T: Sc>(rng: &mut Rng, r: &mut usize, c: &mut usize, bad_pct: usize
         _ => match rng.below(4) { 0 => { let n = rng.below(7); *r = n; *c = n; format!("eye {}", n) }
                                   1 => format!("clonemut {}", sc(rng)),
                                   2 => { *r = dim(rng); *c = dim(rng); format!("new {} {} {}", *r, *c, sc(rng)) }
-                                  _ => if rng.chance(15) { *r = 0; *c = 0; "clear".into() } else { "neg".into() } },
+                                  _ => if rng.chance(15) { *r = 0; *c = 0; if rng.chance(50) { "clear".into() } else { "empty".into() } }
+                                       else { let b2 = bad && rng.chance(50); format!("swapelem {} {} {} {}", idx(rng, *r, bad), idx(rng, *c, false), idx(rng, *r, false), idx(rng, *c, b2)) } },
     }
 }
 
